@@ -193,6 +193,11 @@ pub fn spaces(tier: Tier) -> Vec<Space<'static>> {
         }
         acc.sample(|| json!({"a": format!("{:?}", d.vals[i]), "key_a": hex(ka)}));
     }));
+    {
+        let sz = std::sync::Arc::new(crate::checks::scale::sizes(tier));
+        sp.push(Space::new("size sweep: every N up to the limit, 6 related documents, all pairs", sz.len() as u64, move |i, acc| crate::checks::scale::sized_relations(sz[i as usize], acc, 2)));
+        sp.push(Space::new("depth sweep: every depth 1..=300, 21 chains, all pairs", 300, |i, acc| crate::checks::scale::depth_relations(i as usize + 1, acc, 2)));
+    }
     let nv = crate::checks::scale::variants().len() as u64;
     sp.push(Space::new("scale-pairs (big documents and near-copies)", nv, |i, acc| crate::checks::scale::relation_row(i as usize, acc, 2)));
     sp
